@@ -6,6 +6,7 @@ import (
 	"math/big"
 	"math/rand"
 	"sync"
+	"sync/atomic"
 	"time"
 
 	"github.com/vipnode/vipnode/v2/pool/store"
@@ -147,11 +148,22 @@ func runC03(ctx *Ctx) {
 		charge := int64(1 + rng.Intn(50))
 		k := int64(1 + rng.Intn(2)) // peers billed
 		// deposit such that after a charge of k*charge the spendable balance is m + delta
-		dep := new(big.Int).Add(m, big.NewInt(delta+k*charge))
 		linked := rng.Intn(4) != 0
+		// an operator's own host and client under one wallet: what the host earns in this
+		// keep-alive lands in the account the client spends from
+		shared := linked && rng.Intn(3) == 0
+		net := k * charge
+		if shared {
+			net -= charge
+			ctx.Count("shared-account")
+		}
+		dep := new(big.Int).Add(m, big.NewInt(delta+net))
 		if linked {
 			ops = append(ops, &POp{Op: "connect", Node: "c1", Kind: "geth"})
 			ops = append(ops, &POp{Op: "addnode", Wallet: "w1", Node: "c1"})
+			if shared {
+				ops = append(ops, &POp{Op: "addnode", Wallet: "w1", Node: "h1"})
+			}
 			if dep.Sign() > 0 {
 				ops = append(ops, &POp{Op: "deposit", Wallet: "w1", Amount: dep.String()})
 			}
@@ -180,6 +192,10 @@ func runC07(ctx *Ctx) {
 		drv := i % 2
 		if i%10 == 9 {
 			c07Race(ctx, i, drv, rng)
+			return
+		}
+		if i%10 == 4 {
+			c07Staged(ctx, i, drv, rng)
 			return
 		}
 		cfg := worldCfg{Drv: drv, Price: "1", IntervalNs: 1, Settle: rng.Intn(10) != 0}
@@ -289,4 +305,133 @@ func c07Race(ctx *Ctx, i, drv int, rng *rand.Rand) {
 	}
 	// note: racing requests with nonces submitted out of order may be refused as replays; that is C05's business
 	ctx.Emit(Case{I: i, Kind: "race-" + driverNames[drv], Desc: map[string]interface{}{"racing": k, "owed": owed.String(), "paid": paid.String(), "settlements": nsettle, "succeeded": okCount}, Monitor: mon})
+}
+
+// c07Staged forces the interleaving "a withdrawal queues behind one that is settling; the settling
+// one fails; the queued one starts settling; a further withdrawal arrives" for a chain of
+// withdrawals of one wallet: no two settlements of a wallet may be in progress at once, and the
+// wallet is paid what it is owed once.
+func c07Staged(ctx *Ctx, i, drv int, rng *rand.Rand) {
+	cfg := worldCfg{Drv: drv, Price: "1", IntervalNs: 1, Settle: true, Fee: "10", WMin: strp("100")}
+	w := newWorld(cfg)
+	defer w.Close()
+	w.aliasAll()
+	var mon []string
+	pre := []*POp{{Op: "connect", Node: "h1", Host: true, Kind: "geth"}, {Op: "connect", Node: "c1", Kind: "geth"},
+		{Op: "addnode", Wallet: "w1", Node: "h1"}, {Op: "update", Node: "c1", Peers: []string{"h1"}, Elapsed: 0},
+		{Op: "update", Node: "c1", Peers: []string{"h1"}, Elapsed: int64(1000 + rng.Intn(9000))}}
+	for _, o := range pre {
+		_, m := w.applyPOp(o)
+		mon = append(mon, m...)
+	}
+	acct := store.Account(walletOf("w1"))
+	b0, _ := w.bstore.GetAccountBalance(acct)
+	owed := new(big.Int).Add(&b0.Credit, &b0.Deposit)
+	owed = new(big.Int).Set(owed)
+	chain := 3 + rng.Intn(3)
+	failing := rng.Intn(3) != 0 // the settlements before the last fail (balance stays), or all succeed
+	entered := make(chan int, 64)
+	release := make([]chan bool, 64)
+	for j := range release {
+		release[j] = make(chan bool, 1)
+	}
+	var inflight, maxInflight int32
+	w.mu.Lock()
+	w.settleHook = func(n int) bool {
+		c := atomic.AddInt32(&inflight, 1)
+		for {
+			m := atomic.LoadInt32(&maxInflight)
+			if c <= m || atomic.CompareAndSwapInt32(&maxInflight, m, c) {
+				break
+			}
+		}
+		defer atomic.AddInt32(&inflight, -1)
+		entered <- n
+		if n < len(release) {
+			select {
+			case ok := <-release[n]:
+				return ok
+			case <-time.After(3 * time.Second):
+			}
+		}
+		return true
+	}
+	w.mu.Unlock()
+	addr := walletOf("w1")
+	var wg sync.WaitGroup
+	launch := func() {
+		nonce := w.nextNonce()
+		sig := w.sign(keyFor("w1"), "pool_withdraw", addr, nonce)
+		wg.Add(1)
+		go func() {
+			defer wg.Done()
+			w.pay.Withdraw(context.Background(), sig, addr, nonce)
+		}()
+	}
+	waitEntered := func(d time.Duration) (int, bool) {
+		select {
+		case n := <-entered:
+			return n, true
+		case <-time.After(d):
+			return 0, false
+		}
+	}
+	launch() // the first withdrawal: wait until it is settling
+	cur, ok := waitEntered(2 * time.Second)
+	launched := 1
+	for ok && launched < chain {
+		launch() // queues behind the settling one
+		launched++
+		time.Sleep(15 * time.Millisecond)
+		if n, early := waitEntered(30 * time.Millisecond); early {
+			// a second settlement started while the first is still in progress
+			release[n] <- true
+		}
+		release[cur] <- !failing // the settling one ends; the queued one may start
+		cur, ok = waitEntered(500 * time.Millisecond)
+		if !ok {
+			break // nothing left to settle (the previous one succeeded and drained the wallet)
+		}
+		if launched < chain {
+			launch() // arrives while the previously queued one is settling
+			launched++
+			if n, early := waitEntered(120 * time.Millisecond); early {
+				release[n] <- true
+			}
+		}
+	}
+	for j := range release { // let everything finish, successfully
+		select {
+		case release[j] <- true:
+		default:
+		}
+	}
+	wg.Wait()
+	paid := new(big.Int)
+	w.mu.Lock()
+	nok := 0
+	for _, c := range w.settleLog {
+		if c.OK {
+			a, _ := new(big.Int).SetString(c.Amount, 10)
+			paid.Add(paid, a)
+			nok++
+		}
+	}
+	nsettle := len(w.settleLog)
+	w.settleHook = nil
+	w.mu.Unlock()
+	fees := big.NewInt(int64(10 * nok))
+	if new(big.Int).Add(paid, fees).Cmp(owed) > 0 {
+		mon = append(mon, fmt.Sprintf("c07-race-double-pay: a chain of %d overlapping withdrawals of a wallet owed %s was paid %s in %d successful settlements", launched, owed, paid, nok))
+	}
+	if m := atomic.LoadInt32(&maxInflight); m > 1 {
+		mon = append(mon, fmt.Sprintf("c07-overlapping-settlements: %d settlements of one wallet were in progress at the same time (each pays the balance it read)", m))
+	}
+	b1, _ := w.bstore.GetAccountBalance(acct)
+	left := new(big.Int).Add(&b1.Credit, &b1.Deposit)
+	if nok > 0 && left.Sign() != 0 {
+		mon = append(mon, fmt.Sprintf("c07-not-drained: %s left after overlapping withdrawals paid %s", left, paid))
+	}
+	ctx.Emit(Case{I: i, Kind: "staged-race-" + driverNames[drv], Desc: map[string]interface{}{"chain": launched, "earlier_settlements_fail": failing,
+		"owed": owed.String(), "paid": paid.String(), "settlements": nsettle, "successful": nok}, Monitor: mon})
 }
